@@ -176,6 +176,8 @@ fn request() -> Request {
 }
 
 /// `what` of the failures caused by stale ancestors left behind by an upsert batch that names a uid more than once
+/// (the defect fixed in /repo's `upsert_entities`; the classification stays so that a regression is reported under
+/// its own name — with the repaired code it must never fire)
 pub const STALE_REPEATED: &str = "stale ancestor after upsert batch repeating a uid";
 
 /// some uid named more than once in the batch of an upsert
@@ -337,7 +339,7 @@ pub fn run_history(ops: &[Op], n: usize, tag: &str, out: &mut Out, r: &mut Rng) 
                 (Ok(_), Err(kind)) => out.propfail("operation accepted although the result is cyclic / a conflicting duplicate", &desc, &format!("op #{k}: expected error {kind}")),
                 (Err(e), Ok(_)) => out.propfail("operation rejected although the result is acyclic and has no conflicting duplicate", &desc, &format!("op #{k}: error {}", err_kind(e))),
             }
-            // after the known stale-ancestor shape the store no longer satisfies the property: stop following it
+            // after the stale-ancestor shape (regression of the fixed defect) the store no longer satisfies the property: stop following it
             if let (Ok(_), Ok(nsp)) = (&res, exp) { sp = nsp; pure = !stale; }
         } else if res.is_ok() {
             pure = false;
@@ -492,9 +494,11 @@ fn gen_scripted(r: &mut Rng) -> (Vec<Op>, usize) {
             vec![Op::From(Mode::Compute, base), Op::Upsert(Mode::Compute, vec![e(1, &[4])]), Op::Remove(Mode::Compute, vec![lab[4]]), Op::Upsert(Mode::Compute, vec![e(1, &[2, 5])])]
         }
         5 => {
-            // an upsert batch naming one uid more than once (the last record wins), mixed with overwrites of its
-            // descendants: the first overwrite drops an ancestor from the descendants, the second finds them no
-            // longer marked as descendants
+            // REGRESSION family (defect C04-upsert-batch-repeated-uid-stale-ancestor, fixed in /repo): an upsert batch
+            // naming one uid more than once (the last record wins), mixed with overwrites of its descendants. Before
+            // the fix the first overwrite dropped an ancestor from the descendants and the second found them no
+            // longer marked as descendants, which left a stale indirect ancestor; the repaired code dedupes the
+            // batch first, so no failure may appear here.
             if r.chance(40) {
                 // x -> w -> u, w -> v -> y ; [u<y, u<, w<]
                 let base = vec![e(0, &[1]), e(1, &[2, 3]), e(2, &[]), e(3, &[4]), e(4, &[])];
@@ -515,6 +519,14 @@ fn gen_scripted(r: &mut Rng) -> (Vec<Op>, usize) {
                 let w = r.below(u);
                 let ps: Vec<usize> = (w + 1..m).filter(|_| r.chance(25)).collect();
                 b.push(e(w, &ps));
+                // sometimes also a NEW uid (no record yet) named twice: pushed at its first occurrence, replaced in place by the second
+                if m < n && r.chance(40) {
+                    for _ in 0..2 {
+                        let ps: Vec<usize> = (0..m).filter(|_| r.chance(35)).collect();
+                        let at = r.below(b.len() + 1);
+                        b.insert(at, e(m, &ps));
+                    }
+                }
                 vec![Op::From(Mode::Compute, base), Op::Upsert(Mode::Compute, b)]
             }
         }
